@@ -113,6 +113,27 @@ def check(ctx, prog, stats, do_sub):
     case = dict(prog)
     if impl0 != mod0:
         ctx.violation(f"registration order {base_order}: implementation {impl0} != model {mod0}", case, kind="correspondence")
+        # the tie with the model is broken for this program: ask the property of the implementation alone, with the model
+        # of the unchanged code deciding what is a known order-dependence (it is one only where the model's own outcomes
+        # differ between the two runs)
+        for _ in range(3):
+            o = base_order[:]
+            rng.shuffle(o)
+            impl, mod = run_order(prog, o)
+            stats["evaluations"] += len(impl)
+            bad = [i for i in range(len(impl)) if impl[i] != impl0[i] and mod[i] == mod0[i]]
+            if bad:
+                ctx.violation(f"outcome depends on the registration / iteration order: {impl0[bad[0]]} vs {impl[bad[0]]} under {o} (the unchanged code's model gives {mod0[bad[0]]} under both)",
+                              dict(case, order=o, calls=[prog["calls"][bad[0]]]))
+                return
+        extra = irrelevant_extension(rng, prog)
+        ext = dict(prog, defs=prog["defs"] + extra)
+        impl_e, mod_e = run_order(ext, list(range(len(ext["defs"]))))
+        stats["evaluations"] += len(impl_e)
+        bad = [i for i in range(len(impl0)) if impl_e[i] != impl0[i] and mod_e[i] == mod0[i]]
+        if bad:
+            ctx.violation(f"a method not applicable to the call changes its outcome: {impl0[bad[0]]} -> {impl_e[bad[0]]} (the unchanged code's model gives {mod0[bad[0]]} with and without it)",
+                          dict(ext, calls=[ext["calls"][bad[0]]]))
         return
     known_class = None
     orders = []
